@@ -7,7 +7,7 @@ use crate::types::*;
 pub const PLACEHOLDER: &str = "PATH NOT FILLED BY VFS LAYER";
 /// tokens that only occur in inner namespaces (altroot directories, areas beside them, overlay
 /// bookkeeping, physical scratch directories) — never in the caller's universe
-pub const INNER_TOKENS: &[&str] = &["ALTROOT_", "BESIDE_", ".whiteout", "_wo'", "/dev/shm", "vsim-", ".scratch"];
+pub const INNER_TOKENS: &[&str] = &["ALTROOT_", "BESIDE_", "LAYERDIR_", ".whiteout", "_wo'", "/dev/shm", "vsim-", ".scratch"];
 
 pub fn check_error(e: &ErrInfo, op: &Op) -> Option<(String, String)> {
     if e.io_only {
